@@ -377,6 +377,7 @@ func runC13(r *harness.Run) {
 	r.Extra["seconds_payloads_and_shared_prototypes"] = int(time.Since(t0).Seconds())
 	t0 = time.Now()
 	c13PoolHistories(r)
+	c13SharedObjects(r)
 	r.Extra["seconds_pool_histories"] = int(time.Since(t0).Seconds())
 	r.Extra["states"] = states
 	r.Extra["transitions"] = transitions
